@@ -100,6 +100,8 @@ type Engine struct {
 	fnInfo  map[*ssa.Function]*FnInfo
 	mergeM   sync.Mutex
 	armCache map[*ssa.BasicBlock]bool
+	lateM    sync.Mutex
+	lateCache map[*ssa.Store]bool
 	tier     string
 	observe  func(h, s string)
 
